@@ -27,4 +27,4 @@ $u"
 }
 export -f run_one; export PROPS
 D=$(readlink -f "${1:-/verif/benign}")
-for d in "$D"/*/; do [ -f "$d/patch.diff" ] && echo "$(basename $d) ${d}patch.diff"; done | xargs -P 6 -L 1 bash -c 'run_one $0 $1'
+for d in "$D"/*/; do [ -f "$d/patch.diff" ] && echo "$(basename $d) ${d}patch.diff"; done | xargs -P ${MATRIX_JOBS:-6} -L 1 bash -c 'run_one $0 $1'
